@@ -14,15 +14,23 @@ def reset_oracle(rec):
     import fol
     w = worlds_of(rec)
     asserted = {}
+    flushed = set()
     for k, line in enumerate(rec["lines"]):
         if line.startswith("fact "):
             t = line.split()
             asserted[(int(t[1]), t[2])] = (parse_q(t[3]), parse_q(t[4]))
+            flushed.discard((int(t[1]), t[2]))
+        elif line == "fflush":
+            # flush() stores UNKNOWN as the data of every row that exists at this moment; rows created later read their
+            # world default as before
+            tabs = fol.parse_tab(rec["impl"][k + 1]) if k + 1 < len(rec["lines"]) and rec["lines"][k + 1].startswith("ftab ") else {}
+            asserted = {}
+            flushed = {(i, g) for i, rows in tabs.items() for g in rows}
         elif line.startswith("fresetb") and k + 1 < len(rec["lines"]) and rec["lines"][k + 1].startswith("ftab "):
             tabs = fol.parse_tab(rec["impl"][k + 1])
             for i, rows in tabs.items():
                 for g, b in rows.items():
-                    want = asserted.get((i, g), w.get(i))
+                    want = asserted.get((i, g), (0, 1) if (i, g) in flushed else w.get(i))
                     if want is not None and b != want:
                         return {"problem": "a bound proved by an earlier pass survived reset_bounds()", "formula": i, "grounding": g,
                                 "after_reset": list(map(str, b)), "data_or_world_default": list(map(str, want)),
@@ -43,7 +51,8 @@ def oracle(rec):
     ts = [t for t in tabs_of(rec) if t[1].startswith("finfer")]
     if len(ts) < 2:
         return None
-    first, last = ts[0][3], ts[-1][3]
+    # episode programs (flush + new data in between) end with two reset_bounds()+infer() pairs on the same data
+    first, last = (ts[-2][3] if rec["prog"].get("episode") else ts[0][3]), ts[-1][3]
     repro = not rec.get("disagreements")          # the Lean model computes exactly what the implementation computed on this program
     contra = any(o == "c 1" for o in rec["impl"] if o)
     fg = any(n.get("fully_grounded") for n in rec["prog"]["kb"]["nodes"])
@@ -111,6 +120,20 @@ def run(rep, tier, seed):
                 g = [rng.choice([p["n_consts"], rng.randrange(p["n_consts"])]) for _ in range(pd["arity"])]
                 mid.insert(rng.randint(0, len(mid)), ("get", pd["id"], g))
             p["ops"] = [("infer", 60)] + mid + [("resetb",), ("infer", 60)]
+            if k % 4 == 3 and not quant:
+                # a model re-used for a second episode: flush(), new data for the same individuals, inference, revision
+                # of some of the new data, then the usual reset_bounds() + infer() pair. Nothing the second episode's
+                # inference proved may be taken for data by reset_bounds().
+                ep = [("flush",)]
+                for f in p["facts"]:
+                    if rng.random() < 0.7:
+                        ep.append(("fact", f[0], f[1], f[2], f[3]))
+                ep.append(("infer", 60))
+                for f in p["facts"]:
+                    if rng.random() < 0.4:
+                        ep.append(("fact", f[0], f[1], 0, 1))
+                p["ops"] = [("infer", 60)] + mid + ep + [("resetb",), ("infer", 60), ("resetb",), ("infer", 60)]
+                p["episode"] = True
         if not quant:
             progs = cprogs + progs
         recs, first = streams.run_fol_stream(rep, name, progs, {"tables", "reported"})
